@@ -50,6 +50,15 @@ namespace MayVerif.Park
 @[grind →] theorem susp_true {p : PPc} (h : susp p = true) : p = .u3wait ∨ p = .u1wait ∨ p = .pd0wait := by
   cases p <;> simp_all [susp]
 
+/-- proof engineering only: the preservation proof for P (and K) is split over several files that build in parallel -/
+def pgrp : PPc → Nat
+  | .idle | .pfin | .pchk _ | .u0load | .u0store | .u0swap | .u1load | .u1chk | .u1wait | .u1back | .u1pan => 0
+  | .u2store | .u3chk | .u3wait | .u4chk | .u4cst | .u5load | .u5store | .u5swap | .u6 | .u7 => 1
+  | _ => 2
+def kgrp : KPc → Nat
+  | .kidle | .k5 | .k0 | .k1 | .k2 | .k3 => 0
+  | _ => 1
+
 structure Inv (s : St) : Prop where
   -- A
   bad : s.bad = false
